@@ -171,6 +171,20 @@ func (c17) Generate(rng *rand.Rand, tier string, st *Stats) []Case {
 		}
 		cases = append(cases, Case{ID: fmt.Sprintf("rnd%d", i), Ops: ops})
 	}
+	// long queues: hundreds of stanzas outstanding (the backing array grows several times), drained in between
+	for k, n := range []int{70, 150, 400} {
+		var ops [][]string
+		for j := 0; j < n; j++ {
+			ops = append(ops, []string{"push", hx(fmt.Sprintf("<m n='%d'/>", j))})
+		}
+		ops = append(ops, []string{"popn", strconv.Itoa(n / 5)}, []string{"peekn", "3"})
+		for j := 0; j < n; j++ {
+			ops = append(ops, []string{"push", hx(fmt.Sprintf("<n n='%d'/>", j))})
+		}
+		ops = append(ops, []string{"peek"}, []string{"pop"}, []string{"popn", strconv.Itoa(3 * n)}, []string{"empty"}, []string{"pushsame", hx("<after/>")}, []string{"peek"})
+		cases = append(cases, Case{ID: fmt.Sprintf("long%d", k), Ops: ops})
+		st.Inc("long_queue")
+	}
 	// nil receiver
 	for i := 0; i < 20; i++ {
 		var ops [][]string
